@@ -9,11 +9,13 @@ EXPLANATION = (
     "shape term of each impl is reconstructed from the MIR of its `type_info` body by partial evaluation over the "
     "builder vocabulary (no execution) and its encoding-relevant projection (definition kind, member count/order/"
     "types, variant indices, array length expression, forwarding target) is compared with a table written from the "
-    "SCALE specification. An impl whose self type has no row is reported. The value-level clause (an independent "
+    "SCALE specification. An impl whose self type has no row is reported; helper functions shared by impls are looked into. "
+    "That every built-in named by the property has type info at all (tuples to arity 20, arrays, NonZero*, collections, "
+    "pointers/references to unsized pointees) is decided by witness programs that must type-check (R4.5). The value-level clause (an independent "
     "decoder recovers every value) is not decided: it needs the codec's leaf encodings (trusted)."
 )
 MANIFEST = {
-    "technique": "static analysis: partial evaluation of type_info MIR into shape terms, compared with a SCALE shape table",
+    "technique": "static analysis: partial evaluation of type_info MIR into shape terms, compared with a SCALE shape table; compile witnesses for the inventory",
     "level_note": "Decides the shape-class clause only; codec leaf encodings, Vec/Option/Result/Compact wire formats and "
                   "per-value decoding are trusted/not decided. Trusted base: rustc front end/MIR; builder API semantics (C17).",
 }
